@@ -96,4 +96,16 @@ CanAlwaysGroup ==
   \A v1, v2 \in g.present :
      (v1 # v2 /\ GroupOf(g, v1) = {} /\ GroupOf(g, v2) = {} /\ Cardinality(g.groups) < MaxGroups
         /\ Len(g.edges[v1]) < MaxN) => \A a \in Labels : BindOk(g, v1, v2, a)
+
+\* C06: the group table can always be emptied again, whatever has happened before: reading out every group (SodgCore!
+\* DrainAll: at most one put and the reads of its unread data per group) collects exactly the grouped vertices, leaves
+\* the ungrouped ones untouched, and then all MaxGroups groups can be formed anew (CanAlwaysGroup in that state)
+Recoverable ==
+  LET d == DrainAll(g)  grouped == UNION g.groups IN
+  /\ d.groups = {}
+  /\ d.present = g.present \ grouped
+  /\ \A v \in d.present : d.edges[v] = g.edges[v] /\ d.val[v] = g.val[v] /\ d.st[v] = g.st[v]
+  /\ d.nextv = g.nextv
+\* probe, must be VIOLATED: some reachable state has a group (Recoverable is not vacuous)
+ProbeNeverGrouped == g.groups = {}
 =============================================================================
